@@ -6,6 +6,12 @@
 // TotalCount, ValueAtQuantile(100 r/total) for every rank r, Min and Max are compared with the
 // intervals the spec states, Export/Import and Merge-into-empty with Equals; every call runs under
 // recover: a panic (the library's internal invariants) is a violation with its own key.
+//
+// Large magnitudes: an input line may carry "scale" c and "lift" k.  The behaviour is then executed on
+// New(min<<c, max<<(k+c), sf) with every value v replaced by TVal(v) (v<<c below the shape's liftfrom,
+// v<<(k+c) from there on) and judged with TransExpect of Hdr.tla applied to the printed expectations
+// (xform.apply below is its transcription; `vh-hdr xform` prints what it computes so that the check can
+// compare it with TransExpect as evaluated by TLC).
 package main
 
 import (
@@ -31,22 +37,113 @@ type step struct {
 	Prec    []int64 `json:"prec"`
 	Minlo   int64   `json:"minlo"`
 	Dropped int64   `json:"dropped"`
+	// "new" only: constants of TransExpect
+	LiftFrom int64 `json:"liftfrom"`
+	Pu       int64 `json:"pu"`
+	Pd       int64 `json:"pd"`
 }
 
 type input struct {
-	N   int    `json:"n"`
-	Beh []step `json:"beh"`
+	N     int    `json:"n"`
+	Beh   []step `json:"beh"`
+	Scale uint   `json:"scale"`
+	Lift  uint   `json:"lift"`
+}
+
+// xform is TransExpect / TVal / TShape of Hdr.tla for one behaviour
+type xform struct {
+	c, k             uint
+	liftFrom, pu, pd int64
+}
+
+func newXform(in input) xform {
+	n := in.Beh[0]
+	x := xform{c: in.Scale, k: in.Lift, liftFrom: n.LiftFrom, pu: n.Pu, pd: n.Pd}
+	if x.c+x.k > 0 {
+		if n.Pu <= 0 || n.Pd <= 0 || n.LiftFrom <= 0 {
+			panic("scaled replay of a behaviour without liftfrom/pu/pd")
+		}
+		if x.c+x.k > 61 || n.Max >= (int64(1)<<62)>>(x.c+x.k) {
+			panic(fmt.Sprintf("scale %d lift %d takes max %d to 2^62 or beyond", x.c, x.k, n.Max))
+		}
+		if 2*n.LiftFrom > (int64(1)<<62)>>x.c {
+			panic(fmt.Sprintf("scale %d takes subBucketCount<<unitMagnitude = %d beyond 2^62", x.c, 2*n.LiftFrom))
+		}
+	}
+	return x
+}
+
+func (x xform) identity() bool { return x.c+x.k == 0 }
+
+// fac: the exponent of Fac(s, k, c, v)
+func (x xform) fac(v int64) uint {
+	if v >= x.liftFrom {
+		return x.k + x.c
+	}
+	return x.c
+}
+
+func (x xform) val(v int64) int64 {
+	if x.identity() {
+		return v
+	}
+	return v << x.fac(v)
+}
+
+// apply transforms the expectations of a step (and its arguments) in place
+func (x xform) apply(st *step) {
+	if x.identity() {
+		return
+	}
+	switch st.Op {
+	case "new":
+		st.Min, st.Max = st.Min<<x.c, st.Max<<(x.k+x.c)
+	case "corr":
+		if x.k != 0 {
+			panic("RecordCorrectedValue is not invariant under lift")
+		}
+		st.V, st.N = st.V<<x.c, st.N<<x.c
+	case "rec", "recn", "grec":
+		st.V = x.val(st.V)
+	}
+	if st.Total > 0 {
+		st.Minlo = ((st.Minlo - 1) << x.fac(st.Sorted[0])) + 1
+	}
+	for r := range st.Sorted {
+		f := x.fac(st.Sorted[r])
+		st.Hi[r] = ((st.Hi[r] + 1) << f) - 1
+		st.Sorted[r] <<= f
+		st.Prec[r] = x.pu << x.c
+		if p := st.Sorted[r] / x.pd; p > st.Prec[r] {
+			st.Prec[r] = p
+		}
+	}
 }
 
 func main() {
-	if len(os.Args) < 2 || os.Args[1] != "replay" {
-		fmt.Fprintln(os.Stderr, "usage: vh-hdr replay")
+	if len(os.Args) < 2 || (os.Args[1] != "replay" && os.Args[1] != "xform") {
+		fmt.Fprintln(os.Stderr, "usage: vh-hdr replay|xform")
 		os.Exit(2)
 	}
 	rt.ReadLines(func(_ int, raw json.RawMessage) {
 		var in input
 		if err := json.Unmarshal(raw, &in); err != nil {
 			panic(err)
+		}
+		if os.Args[1] == "xform" {
+			// no library call: print the transformed shape and final expectation
+			x := newXform(in)
+			first, last := in.Beh[0], in.Beh[len(in.Beh)-1]
+			x.apply(&first)
+			if len(in.Beh) > 1 {
+				x.apply(&last)
+			} else {
+				last = first
+			}
+			rt.Emit(map[string]any{"n": in.N, "min": first.Min, "max": first.Max, "total": last.Total,
+				"sorted": last.Sorted, "hi": last.Hi, "prec": last.Prec, "minlo": last.Minlo})
+			rt.Flush()
+			return
 		}
 		rt.Emit(map[string]any{"begin": in.N})
 		rt.Flush()
@@ -56,8 +153,14 @@ func main() {
 	rt.Flush()
 }
 
+// a failure of a transformed replay carries its own key suffix: the same behaviour is also replayed as printed,
+// so the keys tell whether a defect needs large magnitudes
 func fail(in input, k int, key, what string) map[string]any {
-	return map[string]any{"n": in.N, "ok": false, "step": k, "key": key, "what": what}
+	if in.Scale+in.Lift > 0 {
+		key += "~large-magnitude"
+		what = fmt.Sprintf("[behaviour executed at scale 2^%d, lift 2^%d] %s", in.Scale, in.Lift, what)
+	}
+	return map[string]any{"n": in.N, "ok": false, "step": k, "key": key, "what": what, "scale": in.Scale, "lift": in.Lift}
 }
 
 // call runs fn, turning a panic into its text
@@ -94,7 +197,9 @@ func (w *world) observed() *hdrhist.Histogram {
 
 func replay(in input) map[string]any {
 	w := &world{}
+	x := newXform(in)
 	for k, st := range in.Beh {
+		x.apply(&st)
 		shape := fmt.Sprintf("New(%d,%d,%d)", w.min, w.max, w.sf)
 		var err error
 		var pan string
